@@ -74,6 +74,8 @@ func (c c13Case) text() string {
 	}
 	// the same variable as seen by an external process started by the command
 	fmt.Fprintf(&sb, "    sh -c 'printf \"%%s\\n\" \"$%s\"'\n", c.Name)
+	// ... and whether it is there at all (an empty value is not the same as no variable)
+	fmt.Fprintf(&sb, "    env | grep -c \"^%s=\" || true\n", c.Name)
 	sb.WriteString("}\n\n")
 	sb.WriteString(c.declText("below"))
 	return sb.String()
@@ -296,6 +298,9 @@ func c13Run(root string, c c13Case) (obs []c13Obs, inv int) {
 			wantEnv = append(wantEnv, "twinvalue\n")
 		}
 		wantEnv = append(wantEnv, want+"\n") // external process
+		if !strings.Contains(want, "\n") {
+			wantEnv = append(wantEnv, "1\n") // present in the environment exactly once
+		}
 		for i, w := range wantEnv {
 			if i >= len(rep[0].Results) {
 				obs = append(obs, c13Obs{"unexpected-failure", "missing command result"})
